@@ -1218,3 +1218,83 @@ def rf70(run):
         if not calls:
             run.violation(rule, g, 'unguarded folding', '%s does not consult cycle_phi_p' % fn, line=g.line)
     return n
+
+
+# ---------------------------------------------------------------------------------------------
+# RF71: a list scan that can run off the end is not followed by an unguarded use of its cursor
+# ---------------------------------------------------------------------------------------------
+
+def rf71(run, units=('mir',), only=None):
+    rule = 'RF71'
+    run.rule(rule, 'a `for (x = …; x != NULL; x = next/prev (x))` scan with a `break` leaves x == NULL when nothing matched.  On the edge '
+                   'that leaves the loop through the condition, x is not dereferenced and not handed to DLIST_NEXT / DLIST_PREV before it '
+                   'is tested or assigned again (with NDEBUG an assertion is no test)')
+    n = 0
+    for u in units:
+        tu = run.tu(u)
+        for f in tu.func_list:
+            if not f.file.startswith('/repo') or f.cfg_raw is None or (only and f.name not in only):
+                continue
+            loops = [l for l in f.walk() if l['k'] == 'ForStmt' and l['c'][1] is not None and any(y['k'] == 'BreakStmt' for y in F.walk(l['c'][3] or {}))]
+            if not loops:
+                continue
+            cfg = f.cfg
+            for l in loops:
+                c = F.strip(l['c'][1])
+                if not (c['k'] == 'BinaryOperator' and c['op'] == '!=' and F.const_value(F.strip(c['c'][1])) == 0):
+                    continue
+                xv = F.strip(c['c'][0])
+                if xv['k'] != 'DeclRefExpr' or xv.get('dk') != 'local':
+                    continue
+                # a break directly inside this loop (not in a nested loop / switch)
+                def direct_break(s_, top=True):
+                    if s_ is None:
+                        return False
+                    if s_['k'] == 'BreakStmt':
+                        return True
+                    if not top and s_['k'] in ('ForStmt', 'WhileStmt', 'DoStmt', 'SwitchStmt'):
+                        return False
+                    return any(direct_break(k_, False) for k_ in F.kids(s_))
+                if not direct_break(l['c'][3]):
+                    continue
+                x = xv['n']
+                cb = [B for B in cfg.blocks.values() if B.cond is not None and F.strip(B.cond) is c or (B.cond is not None and B.cond.get('i') == c.get('i'))]
+                if not cb or len(cb[0].succs) != 2 or cb[0].succs[1] is None:
+                    continue
+                exit_b = cb[0].succs[1]
+                # walk forward from the condition-false exit until x is tested or assigned
+                seen, work, bad = set(), [exit_b], None
+                while work and bad is None:
+                    b = work.pop()
+                    if b in seen:
+                        continue
+                    seen.add(b)
+                    B = cfg.blocks[b]
+                    stop = False
+                    for e in cfg.top_elems(B):
+                        for y in cfg.local_walk(e):
+                            if y['k'] == 'MemberExpr' and y.get('arrow') and F.src(F.strip(y['c'][0])) == x:
+                                bad = y
+                            elif y['k'] == 'CallExpr' and (y.get('callee') or '').startswith('DLIST_') and (y.get('callee') or '').endswith(('_next', '_prev')) \
+                                    and F.call_args(y) and F.src(F.strip(F.call_args(y)[0])) == x:
+                                bad = y
+                            if bad is not None:
+                                break
+                        if bad is not None:
+                            break
+                        if x in _assigned_vars(e):
+                            stop = True
+                            break
+                    if bad is not None or stop:
+                        continue
+                    if B.cond is not None and x in _vars_in(B.cond):
+                        continue   # x is tested: both outcomes are the author's decision
+                    work.extend(cfg.live_succs(b))
+                n += 1
+                run.functions_analysed.add((u, f.name))
+                run.ob(rule, (f.name, l['l']), bad is None, {'site': '%s:%d %s' % (f.relfile(), l['l'], f.name), 'cursor': x} if n % 10 == 1 or bad is not None else None)
+                if bad is not None:
+                    run.violation(rule, f, 'use of %s after the scan at line %d' % (x, l['l']), 'the scan `for (…; %s != NULL; …)` at line %d can end without a '
+                                  'match, and then `%s` at line %d uses the NULL cursor (an assertion in between is compiled out): a crash instead of '
+                                  'the intended handling' % (x, l['l'], F.src(bad)[:60], bad['l']), line=bad['l'])
+    return n
